@@ -186,3 +186,8 @@ Definition tagged_spec_ok (c : bytes * list bytes * bytes) : bool :=
   | _, _ => false
   end.
 Definition check_tagged_spec := mismatches tagged_spec_ok.
+
+(* EDot, specification side: the printed member access denotes the same key *)
+Definition dot_spec_ok (c : qcfg * list Z * bytes) : bool :=
+  let '(cfg, rs, gb) := c in value_is (member_key gb) (flat_map rune_units rs).
+Definition check_dot_spec := mismatches dot_spec_ok.
